@@ -381,6 +381,8 @@ func k17kLine(w *bufio.Writer, x keyArgs, tn *big.Int, aliasStats map[string]int
 func k17aliasProbe(w *bufio.Writer, g *keyGen) {
 	shared := 0
 	var first string
+	names := map[string]bool{}
+	var order []string
 	for _, c := range keyCtors {
 		for _, n := range []int{1, 2, 3, 5, 20} {
 			x, _ := g.args()
@@ -397,13 +399,17 @@ func k17aliasProbe(w *bufio.Writer, g *keyGen) {
 			}()
 			if bad {
 				shared++
+				if !names[fmt.Sprintf("%s/%d", c.name, n)] {
+					names[fmt.Sprintf("%s/%d", c.name, n)] = true
+					order = append(order, fmt.Sprintf("%s/%d", c.name, n))
+				}
 				if first == "" {
 					first = fmt.Sprintf("%s addrlen=%d", c.name, n)
 				}
 			}
 		}
 	}
-	fmt.Fprintf(w, "# alias-probe overwritten=%d first=%q\n", shared, first)
+	fmt.Fprintf(w, "# alias-probe overwritten=%d first=%q all(constructor/address-length)=%s\n", shared, first, strings.Join(order, ","))
 }
 
 func k17mutateKey(g *keyGen, k []byte) []byte {
